@@ -5,7 +5,7 @@ MODE = "src"
 CROSSHAIR = ["crosshair/c13_contracts.py"]       # second engine, thorough tier
 EXPLANATION = ("Inductive step from the state after an arbitrary number n of requests (n symbolic, unbounded) plus a periodicity lemma (ten requests restore the state, "
                "checked observationally), plus bounded model checking of every operation string through the public API with symbolic start values.")
-BOUNDS = {"quick": "inductive step: any n >= 0, any start values; BMC: all 2^d op strings over {next, set(v)} for every depth d <= 6 with symbolic v",
+BOUNDS = {"quick": "inductive step: any n >= 0, any start values; BMC: all 2^d op strings over {next, set(v)} for every depth d <= 6 with symbolic v; long runs of 300 and 1,100 requests (with and without periodic updates); requests that fail in the middle",
           "thorough": "long runs of 70,000 requests (beyond 8- and 16-bit counter widths), with and without periodic start updates; inductive step as quick; BMC for every depth d <= 12 (4096 op strings at depth 12, start values symbolic)"}
 OUTSIDE = "the inductive argument assumes nothing; histories beyond the BMC depth are covered only by the inductive step + periodicity lemma"
 ASSUMPTIONS = []
